@@ -39,6 +39,17 @@ type ruleSetEndpoint struct {
 	Prefix string   `mapstructure:"prefix"`
 }
 
+// invalidRuleSetsError is returned by readAllBlobs together with the rule sets, which could be
+// read, if some blobs do not contain a valid rule set.
+type invalidRuleSetsError struct {
+	sources []string
+	err     error
+}
+
+func (e *invalidRuleSetsError) Error() string { return e.err.Error() }
+
+func (e *invalidRuleSetsError) Unwrap() error { return e.err }
+
 func (e *ruleSetEndpoint) ID() string {
 	return fmt.Sprintf("%s/%s", e.URL, e.Prefix)
 }
@@ -60,7 +71,10 @@ func (e *ruleSetEndpoint) FetchRuleSets(ctx context.Context) ([]*config.RuleSet,
 }
 
 func (e *ruleSetEndpoint) readAllBlobs(ctx context.Context, bucket *blob.Bucket) ([]*config.RuleSet, error) {
-	var ruleSets []*config.RuleSet
+	var (
+		ruleSets []*config.RuleSet
+		invalid  *invalidRuleSetsError
+	)
 
 	it := bucket.List(&blob.ListOptions{Prefix: e.Prefix})
 
@@ -80,10 +94,27 @@ func (e *ruleSetEndpoint) readAllBlobs(ctx context.Context, bucket *blob.Bucket)
 				continue
 			}
 
+			// a blob with invalid contents must not prevent reading the other ones
+			var ire *invalidRuleSetsError
+			if errors.As(err, &ire) {
+				if invalid == nil {
+					invalid = &invalidRuleSetsError{}
+				}
+
+				invalid.sources = append(invalid.sources, ire.sources...)
+				invalid.err = errors.Join(invalid.err, ire.err)
+
+				continue
+			}
+
 			return nil, err
 		}
 
 		ruleSets = append(ruleSets, ruleSet)
+	}
+
+	if invalid != nil {
+		return ruleSets, invalid
 	}
 
 	return ruleSets, nil
@@ -117,15 +148,20 @@ func (e *ruleSetEndpoint) readRuleSet(ctx context.Context, bucket *blob.Bucket, 
 
 	defer reader.Close()
 
+	source := fmt.Sprintf("%s@%s", key, e.ID())
+
 	contents, err := config.ParseRules(attrs.ContentType, reader, false)
 	if err != nil {
-		return nil, errorchain.
-			NewWithMessage(heimdall.ErrInternal, "failed to decode received rule set").
-			CausedBy(err)
+		return nil, &invalidRuleSetsError{
+			sources: []string{source},
+			err: errorchain.
+				NewWithMessage(heimdall.ErrInternal, "failed to decode received rule set").
+				CausedBy(err),
+		}
 	}
 
 	contents.Hash = attrs.MD5
-	contents.Source = fmt.Sprintf("%s@%s", key, e.ID())
+	contents.Source = source
 	contents.ModTime = attrs.ModTime
 
 	return contents, nil
